@@ -12,8 +12,9 @@ EXPLANATION = ("Structural clauses for remap_stacktrace in the mapper and the ca
                "canonical path; every path through the per-line body performs exactly one output operation built from the line or its "
                "remap; the format helpers fall back to the input line when nothing was remapped and print one indented line per remapped "
                "frame; a single input.lines() iterator is consumed by one next() and one for loop with no adaptor; Ok(output) is the only "
-               "non-error return and every fmt::Result is propagated. NOT decided: which strings the two line classifiers accept and "
-               "str::lines terminator normalisation (runtime string languages).")
+               "non-error return and every fmt::Result is propagated. the two line classifiers are the documented decision structures (delimiters and split "
+               "directions: last '.', first '(', first ':', first \": \"). NOT decided: the string languages std's trim/split/parse accept and "
+               "str::lines terminator normalisation.")
 RULE_TEXT = R1.RULE_TEXT
 TRUSTED = R1.TRUSTED + ["fmt::Write for String is infallible"]
 
@@ -25,5 +26,6 @@ def run(ctx, rep):
         TR.check_text_api(fx, rep, "C07.1", impl)
     TR.check_format_helpers(fx, rep, "C07.2")
     TR.check_display_templates(fx, rep, "C07.4")
+    TR.check_classifiers(fx, rep, "C07.6")
     n = R2.check_twins(fx, rep, "C07.5")
     rep.floor("C07.5", n, 6, "twin pairs")
